@@ -12,6 +12,7 @@ func init() {
 		Runs: []run{
 			{Test: "TestC08_Seq", Quick: 1500, Thorough: 60000},
 			{Test: "TestC08_OneP", Quick: 1000, Thorough: 40000},
+			{Test: "TestC08_Long", Quick: 3, Thorough: 48, Shards: 16},
 			{Test: "TestC08_Race", Quick: 800, Thorough: 24000, Race: true},
 		},
 	})
